@@ -75,7 +75,8 @@ func isName(k string) bool {
 
 // plain decimal spellings: the "numbers" of the statement. Hex floats, inf,
 // nan, digit separators, blanks are NOT claimed to be numbers (nor text).
-var decimalRe = regexp.MustCompile(`^[+-]?([0-9]+\.?[0-9]*|\.[0-9]+)([eE][+-]?[0-9]{1,3})?$`)
+// (1. and .5 are read by some parsers only: left out as well.)
+var decimalRe = regexp.MustCompile(`^[+-]?[0-9]+(\.[0-9]+)?([eE][+-]?[0-9]{1,3})?$`)
 
 // numberOf returns the value of a plain decimal spelling rounded to float64.
 // Tolerance: two spellings whose values round to the same float64 are treated
@@ -162,8 +163,13 @@ func parseSpec(s string) (sortSpec, error) {
 type keySet struct {
 	allWeekdays, allMonths, noNames bool
 	layout                          string
-	instants                        map[string]time.Time // non-nil iff every key parses under layout
+	uniform                         bool                 // every key parses under layout
+	instants                        map[string]time.Time // non-nil iff uniform and the layout reads one way only
 }
+
+// layouts a reader may take as month/day or as day/month: chronological order
+// is not asserted for them (consistency still is).
+func ambiguousLayout(l string) bool { return strings.HasPrefix(l, "01/02/") }
 
 func summarise(keys []string, layout string) keySet {
 	ks := keySet{allWeekdays: len(keys) > 0, allMonths: len(keys) > 0, noNames: true, layout: layout}
@@ -188,7 +194,10 @@ func summarise(keys []string, layout string) keySet {
 			}
 			m[k] = t
 		}
-		ks.instants = m
+		ks.uniform = m != nil
+		if !ambiguousLayout(layout) {
+			ks.instants = m
+		}
 	}
 	return ks
 }
